@@ -383,6 +383,9 @@ def run_corpus(shard):
                                      '[NH3+]CCCC[C@H]([NH3+])C([O-])=O', 'NC(=[NH2+])NCCC[C@H]([NH3+])C([O-])=O', '[NH3+]CC[NH3+].CC(=O)[O-]', '[O-]C(=O)CC([O-])=O.C[NH3+]', '[NH3+]CC([O-])=O.[NH3+]CC([O-])=O.[Cl-]',
                                      'C[NH2+]CC[NH+](C)CC([O-])=O', '[O-]C(=O)C[NH+](CC([O-])=O)CC([O-])=O', 'OC(=O)CC[NH3+]')]
     rows += [('taut-stereo', s) for s in inputs.tautomer_stereo_family()]
+    # azoles with an NH donor and two or more acceptor nitrogens in one aromatic system (every spelling = another numbering)
+    rows += [('azole', s) for s in ('n1[nH]nc(C)n1', 'Cc1nn[nH]n1', 'Cc1nnn[nH]1', 'c1nc[nH]n1', 'Cc1ncn[nH]1', 'Cc1nc[nH]n1', 'c1ncc2[nH]cnc2n1', 'c1nc2nc[nH]c2cn1', 'Cc1cc[nH]n1', 'c1ccc2[nH]nnc2c1',
+                                    'c1ccc2n[nH]nc2c1', 'Cc1n[nH]c(C)n1', 'OCc1nn[nH]n1', 'c1ccc(cc1)-c1nn[nH]n1', 'Cc1cnc[nH]1', 'Nc1ncnc2[nH]cnc12', 'O=c1[nH]cnc2[nH]cnc12')]
     for i, (fam, s) in enumerate(rows):
         if i % nsh != k:
             continue
@@ -429,6 +432,19 @@ def run_corpus(shard):
                     break
                 if j > 60:
                     break
+            # renumbering the input renumbers the output: the SET of tautomers is the same for every numbering. Decided on the small families, where the
+            # enumeration completes far below the attempt limit, with the order-dependent pruning heuristic off and on
+            if fam in ('azole', 'taut-stereo') and len(m) <= 14:
+                for kw_name, kw in (('increase_aromaticity=False', {'increase_aromaticity': False}), ('default options', {})):
+                    base_ = {str(t) for t in m.enumerate_tautomers(limit=5000, **kw)}
+                    for p_ in perms:
+                        acc.transitions += 1
+                        c_ = m.copy()
+                        c_.remap(dict(zip(nums, p_)))
+                        got = {str(t) for t in c_.enumerate_tautomers(limit=5000, **kw)}
+                        if got != base_:
+                            mkbad(acc, s)('set of enumerated tautomers depends on atom numbering (%s)' % kw_name, perm=p_, missing=sorted(base_ - got)[:3], extra=sorted(got - base_)[:3])
+                            break
         except Exception as e:
             mkbad(acc, s)('enumerate_tautomers raised %s' % type(e).__name__)
         if i < 2:
